@@ -176,3 +176,19 @@ Theorem covered_monotone T seen more : covered T seen = true -> covered T (seen 
 Proof.
   rewrite !covered_spec. intros H g. specialize (H g). rewrite count_occ_app. lia.
 Qed.
+
+(* ---------- the port itself manufactures tokens after a termination token ---------- *)
+(* a PROPAGATE|TERMINATE rule towards port 1 for tag 0.1, then two ordinary puts on port 0, none of them a
+   termination token and none on port 1: the consumer x of port 1 observes a token after a termination token *)
+Definition w_ops : list op :=
+  [AddInter 1 ["0.1"] true true; Put 0 (Tok 1 "0.1"); Put 0 (Tok 2 "0.2");
+   Get 1 "x"; Get 1 "x"; Get 1 "x"; Get 1 "x"].
+Theorem inter_term_then_token_refuted :
+  exists ops s es,
+    run (init KInter 2) ops = (s, es) /\
+    forallb (fun t => negb (is_term t)) (puts 0 ops) = true /\ puts 1 ops = [] /\
+    recv 1 "x" (concat es) = [Tok 1 "0.1"; Term RECOVERED; Tok 2 "0.2"; Term RECOVERED].
+Proof.
+  exists w_ops, (fst (run (init KInter 2) w_ops)), (snd (run (init KInter 2) w_ops)).
+  split; [now destruct (run (init KInter 2) w_ops)|]. vm_compute. repeat split; reflexivity.
+Qed.
